@@ -1626,6 +1626,16 @@ class TimePoint:
         new_timepoint._time_zone = self._time_zone._copy()
         return new_timepoint
 
+    def _normalise_end_of_day(self) -> "TimePoint":
+        """Return this TimePoint with an hour_of_day of 24 (end of day)
+        re-expressed as 00:00 of the following day, else self."""
+        if (self._truncated or self._hour_of_day is None or
+                self._hour_of_day < CALENDAR.HOURS_IN_DAY):
+            return self
+        new = self._copy()
+        new._tick_over()
+        return new
+
     def get_props(self) -> list:
         """Return the data properties of this TimePoint as a list of tuples."""
         props = []
@@ -1642,7 +1652,7 @@ class TimePoint:
             # TODO: Convert truncated TimePoints to UTC when not buggy
             return hash(
                 tuple(getattr(self, attr) for attr in self.__slots__))
-        point = self.to_utc()
+        point = self._normalise_end_of_day().to_utc()
         return hash((*point.get_calendar_date(),
                      *point.get_hour_minute_second()))
 
@@ -1669,14 +1679,16 @@ class TimePoint:
                 if self_attr != other_attr:
                     return _operator_map[op](self_attr, other_attr)
             return True
-        other = other.to_time_zone(self._time_zone)
-        if self.get_is_calendar_date():
-            my_date = self.get_calendar_date()
+        # N.B. 24:00 is 00:00 on the following day
+        me = self._normalise_end_of_day()
+        other = other._normalise_end_of_day().to_time_zone(me._time_zone)
+        if me.get_is_calendar_date():
+            my_date = me.get_calendar_date()
             other_date = other.get_calendar_date()
         else:
-            my_date = self.get_ordinal_date()
+            my_date = me.get_ordinal_date()
             other_date = other.get_ordinal_date()
-        my_datetime = [*my_date, self.get_second_of_day()]
+        my_datetime = [*my_date, me.get_second_of_day()]
         other_datetime = [*other_date, other.get_second_of_day()]
         return _operator_map[op](my_datetime, other_datetime)
 
@@ -1699,15 +1711,18 @@ class TimePoint:
         if isinstance(other, TimePoint):
             if other > self:
                 return -1 * (other - self)
-            other = other.to_time_zone(self._time_zone)
-            my_year, my_day_of_year = self.get_ordinal_date()
+            # N.B. 24:00 is 00:00 on the following day
+            me = self._normalise_end_of_day()
+            other = other._normalise_end_of_day().to_time_zone(
+                me._time_zone)
+            my_year, my_day_of_year = me.get_ordinal_date()
             other_year, other_day_of_year = other.get_ordinal_date()
             diff_day = my_day_of_year - other_day_of_year
             if my_year > other_year:
                 diff_day += get_days_in_year_range(other_year, my_year - 1)
             else:
                 diff_day -= get_days_in_year_range(my_year, other_year - 1)
-            my_hour, my_minute, my_second = self.get_hour_minute_second()
+            my_hour, my_minute, my_second = me.get_hour_minute_second()
             other_hour, other_minute, other_second = (
                 other.get_hour_minute_second())
             diff_hour = my_hour - other_hour
